@@ -17,11 +17,14 @@ structure DState where
   cur  : Option CfgId        -- the loaded configuration new requests go to
   down : List Key            -- backends that refuse connections
   keys : List (List Key)     -- per holder (configuration generation or loop iteration): its upstream keys
-  iters : List (Nat × CfgId) -- dynamic upstreams: request → the holder of its loop iteration (latest first)
+  iters : List (Nat × Option CfgId) -- dynamic upstreams: request → the holder of its loop iteration (latest first;
+                             -- none = the source failed, the iteration uses the static upstreams)
+  fbs : List (CfgId × List Key) -- handlers with dynamic upstreams: their static (fallback) upstream keys
+  srcFails : Bool            -- the dynamic source currently answers with an error
   aged : List Nat            -- requests that were already parked while a slow answer (`sl`) was being waited for:
                              -- their own round trip has taken longer than unhealthy_latency, whatever comes
 
-def dinit : DState := { s := init, cur := none, down := [], keys := [], iters := [], aged := [] }
+def dinit : DState := { s := init, cur := none, down := [], keys := [], iters := [], fbs := [], srcFails := false, aged := [] }
 
 def stores (s : State) (c : CfgId) : List Key → Option State
   | [] => some s
@@ -125,7 +128,8 @@ def strikesFor (p : Params) (what : String) (code : Nat) (aged : Bool := false) 
 
 /-- the steps of a schedule (see harness/internal/c09/c09.go for the wire syntax) -/
 inductive SStep
-  | load (ks : List Key) (p : Params)
+  | load (ks : List Key) (p : Params) (fb : List Key)   -- fb: static upstreams of a handler with a dynamic source
+  | srcFail (b : Bool)
   | badLoad (ks : List Key)
   | unloadCur
   | newReq (get : Bool)
@@ -187,9 +191,14 @@ def curLive (d : DState) : Option CfgId :=
   | none => none
 
 /-- the upstreams handler `c` itself holds in the pool: none if they come from a dynamic source -/
+def fbOf (d : DState) (c : CfgId) : List Key :=
+  match d.fbs.find? (·.1 == c) with
+  | some x => x.2
+  | none => []
+
 def ownKeys (d : DState) (s : State) (c : CfgId) : List Key :=
   match s.cfgs[c]? with
-  | some cs => if cs.par.dynamic then [] else keysOf d c
+  | some cs => if cs.par.dynamic then fbOf d c else keysOf d c
   | none => []
 
 /-- does request `r` run on a handler with dynamic upstreams? -/
@@ -198,7 +207,10 @@ def isDynReq (s : State) (r : Nat) : Bool :=
   | some q => q.par.dynamic
   | none => false
 
-def holderOf (d : DState) (r : Nat) : Option CfgId := (d.iters.find? (·.1 == r)).map (·.2)
+def holderOf (d : DState) (r : Nat) : Option CfgId :=
+  match d.iters.find? (·.1 == r) with
+  | some x => x.2
+  | none => none
 
 /-- reverseproxy.go:510-517 — the loop iteration of request `r` returns: its deferred
     `hosts.Delete` of every dynamic upstream it provisioned (the iteration's holder is unloaded) -/
@@ -209,7 +221,7 @@ def endIteration (d : DState) (s : State) (r : Nat) : Option State :=
 
 /-- bookkeeping of a new loop iteration of `r` whose holder is `h` with upstream keys `ks` -/
 def withIter (d : DState) (s : State) (r : Nat) (h : CfgId) (ks : List Key) : DState :=
-  { d with s := s, keys := d.keys ++ [ks], iters := (r, h) :: d.iters }
+  { d with s := s, keys := d.keys ++ [ks], iters := (r, some h) :: d.iters }
 
 /-- the proxy loop of a handler with dynamic upstreams (reverseproxy.go:494-597): every iteration
     provisions the upstreams the source returns (a new pool holder: LoadOrStore each), selects among
@@ -254,6 +266,19 @@ def advanceDyn : Nat → DState → Nat → Option (DState × String)
                       else advanceDyn fuel (withIter d s4 r d.s.cfgs.length (keysOf d q.cfg)) r
                 else some (withIter d s2 r d.s.cfgs.length (keysOf d q.cfg), "P" ++ toString u.1)
 
+/-- reverseproxy.go:503-507 — the source failed: the static proxy loop runs over the handler's
+    own upstreams (no holder for these iterations) -/
+def advanceFb (d : DState) (r : Nat) : Option (DState × String) :=
+  match step d.s (.fallback r) with
+  | none => none
+  | some s1 =>
+    (advance fuel0 { d with s := s1 } r).map fun x => ({ d with s := x.1, iters := (r, none) :: d.iters }, x.2)
+
+/-- the next loop iteration(s) of a request with dynamic upstreams: from the source, or — while
+    the source fails — over the handler's static upstreams -/
+def advanceAny (d : DState) (r : Nat) : Option (DState × String) :=
+  if d.srcFails then advanceFb d r else advanceDyn fuel0 d r
+
 /-- an attempt of a request with dynamic upstreams ended in state `s1`: the iteration returns
     (releasing its upstreams), then the request has returned (`res`) or goes round the loop again -/
 def continueOrRetDyn (d : DState) (s1 : State) (r : Nat) (res : String) : Option (DState × String) :=
@@ -261,7 +286,7 @@ def continueOrRetDyn (d : DState) (s1 : State) (r : Nat) (res : String) : Option
   | none => none
   | some s2 =>
     if isDone s2 r then some ({ d with s := s2 }, res)
-    else advanceDyn fuel0 { d with s := s2 } r
+    else advanceAny { d with s := s2 } r
 
 /-- after an attempt ended: the request returned (`res`) or goes round the loop again -/
 def continueOrRet (d : DState) (s1 : State) (r : Nat) (res : String) : Option (DState × String) :=
@@ -271,21 +296,22 @@ def continueOrRet (d : DState) (s1 : State) (r : Nat) (res : String) : Option (D
 /-- one schedule step: new state and the event token; `none` = the step is not possible here
     (`bad-op`) -/
 def sstep (d : DState) : SStep → Option (DState × String)
-  | .load ks p =>
+  | .srcFail b => if d.srcFails == b then none else some ({ d with srcFails := b }, "-")
+  | .load ks p fb =>
     match step d.s (.newCfg p) with
     | none => none
     | some s1 =>
-      match stores s1 d.s.cfgs.length (if p.dynamic then [] else ks) with
+      match stores s1 d.s.cfgs.length (if p.dynamic then fb else ks) with
       | none => none
       | some s2 =>
         match d.cur with
-        | none => some ({ d with s := s2, cur := some d.s.cfgs.length, keys := d.keys ++ [ks] }, "L")
+        | none => some ({ d with s := s2, cur := some d.s.cfgs.length, keys := d.keys ++ [ks], fbs := (d.s.cfgs.length, fb) :: d.fbs }, "L")
         | some old =>
-          if canceled s2 old then some ({ d with s := s2, cur := some d.s.cfgs.length, keys := d.keys ++ [ks] }, "L")
+          if canceled s2 old then some ({ d with s := s2, cur := some d.s.cfgs.length, keys := d.keys ++ [ks], fbs := (d.s.cfgs.length, fb) :: d.fbs }, "L")
           else
             match unload s2 old (ownKeys d s2 old) with
             | none => none
-            | some s3 => some ({ d with s := s3, cur := some d.s.cfgs.length, keys := d.keys ++ [ks] }, "L")
+            | some s3 => some ({ d with s := s3, cur := some d.s.cfgs.length, keys := d.keys ++ [ks], fbs := (d.s.cfgs.length, fb) :: d.fbs }, "L")
   | .badLoad ks =>
     match step d.s (.newCfg noParams) with
     | none => none
@@ -307,7 +333,7 @@ def sstep (d : DState) : SStep → Option (DState × String)
       match step d.s (.newReq c get) with
       | none => none
       | some s1 =>
-        if isDynReq s1 d.s.reqs.length then advanceDyn fuel0 { d with s := s1 } d.s.reqs.length
+        if isDynReq s1 d.s.reqs.length then advanceAny { d with s := s1 } d.s.reqs.length
         else (advance fuel0 { d with s := s1 } d.s.reqs.length).map fun x => ({ d with s := x.1 }, x.2)
   | .answer r what =>
     if isParked d.s r && isDynReq d.s r then
